@@ -85,3 +85,12 @@ pub fn gate(point: &'static str) {
         f(point)
     }
 }
+
+/// The gRPC subscriber service over the given managers, so that the harness can
+/// drive a handler's future poll by poll (and drop it at a chosen await point).
+pub fn subscriber_service(
+    topic_manager: std::sync::Arc<crate::topics::topic_manager::TopicManager>,
+    subscription_manager: std::sync::Arc<crate::subscriptions::subscription_manager::SubscriptionManager>,
+) -> impl crate::pubsub_proto::subscriber_server::Subscriber {
+    super::subscriber::SubscriberService::new(topic_manager, subscription_manager)
+}
